@@ -142,12 +142,12 @@ def gw_cases(rng, tier):
                 add(rows, sp, f"exhaustive-{w}x{h}")
     if tier == "thorough":      # a sample of the 3x2 / 2x3 families (TLC's mc run covers them completely)
         for (w, h) in [(3, 2), (2, 3)]:
-            for _ in range(2000):
+            for _ in range(3000):
                 tiles = [rng.choice(".#gsx") for _ in range(w * h)]
                 tiles[rng.randrange(w * h)] = "s"
                 add(["".join(tiles[r * w:(r + 1) * w]) for r in range(h)], rng.choice(SP_MENU[:4]), f"sample-{w}x{h}")
     # random bigger layouts with every option varied
-    n = 420 if tier == "quick" else 4000
+    n = 420 if tier == "quick" else 6000
     for i in range(n):
         w, h = rng.choice(SIZES[2:])
         style = i % 7
@@ -200,7 +200,7 @@ def dom_cases(rng, tier):
     wp_menu = [(0, 1), (1, 4), (1, 2), (3, 4), (1, 1), (1, 5)]
     cases.append(windy_case(rng, ["@..$"], "default-feature-rewards", fr=None, rep=dict(grid="plain", fr="default", opts="default")))
     cases.append(windy_case(rng, ["@>.", "..$"], "default-feature-rewards", fr=None, rep=dict(grid="plain", fr="default", opts="explicit")))
-    n = 264 if tier == "quick" else 3000
+    n = 264 if tier == "quick" else 4000
     for i in range(n):
         w, h = rng.choice(SIZES[1:])
         style = i % 6
@@ -226,7 +226,7 @@ def dom_cases(rng, tier):
     co_menu = [(0, 1), (1, 2), (19, 20), (1, 1), (3, 4)]
     cases.append(dict(dom="HeavenOrHell", rows=None, CN=19, CD=20, SC=-1, HR=50, LR=-50, GN=19, GD=20, tag="default-grid",
                       rep=dict(opts="default")))
-    n = 132 if tier == "quick" else 1500
+    n = 132 if tier == "quick" else 2000
     for i in range(n):
         w, h = rng.choice(SIZES[1:])
         cn, cd = rng.choice(co_menu)
@@ -1167,6 +1167,7 @@ def judge_all(ctx, gw, doms, *, dumps=None, tables=None, dtables=None, crosschec
     if crosscheck:
         wf_crosscheck(ctx, recs, owner, wf)
     results = []
+    seen_samples = set()
     for i, (c, d) in enumerate(zip(cases, dumps)):
         f = Findings()
         ctx.evaluations += d.get("calls", 0) + 1
@@ -1195,10 +1196,12 @@ def judge_all(ctx, gw, doms, *, dumps=None, tables=None, dtables=None, crosschec
         if key:
             ctx.nontrivial(key)
         ctx.count(f"cases_{c['dom']}")
-        if i % 97 == 0:
+        skey = (c["dom"], c["tag"])
+        if skey not in seen_samples and c["tag"] not in ("exhaustive-1x1", "exhaustive-2x1", "exhaustive-1x2"):
+            seen_samples.add(skey)
             ctx.sample({"case": {k: c[k] for k in c if k != "rep"}, "rep": c.get("rep"),
                         "states": len(d.get("states", [])), "real_calls": d.get("calls", 0),
-                        "planned_initial_value": (d.get("vi") or {}).get("initial_value") if isinstance(d.get("vi"), dict) else None}, limit=5)
+                        "planned_initial_value": (d.get("vi") or {}).get("initial_value") if isinstance(d.get("vi"), dict) else None}, limit=12)
         results.append(f)
     return results
 
@@ -1209,7 +1212,7 @@ def mc_families(tier):
     fams = [dict(W=w, H=h, alpha=full, sps=sps) for (w, h) in [(1, 1), (2, 1), (1, 2), (3, 1), (1, 3), (2, 2), (4, 1), (1, 4)]]
     if tier == "thorough":
         fams = [dict(W=w, H=h, alpha=full, sps=sps) for (w, h) in [(1, 1), (2, 1), (1, 2), (3, 1), (1, 3)]]
-        fams += [dict(W=3, H=2, alpha=full, sps=sps), dict(W=2, H=3, alpha=full, sps=[[1, 2]]),
+        fams += [dict(W=3, H=2, alpha=full, sps=sps), dict(W=2, H=3, alpha=full, sps=[[1, 2], [1, 1]]),
                 dict(W=3, H=3, alpha=[".", "#", "g"], sps=[[4, 5]]), dict(W=4, H=2, alpha=[".", "#", "g"], sps=[[1, 2]]),
                 dict(W=5, H=1, alpha=full, sps=[[1, 2], [0, 1]])]
     return fams
